@@ -1,158 +1,22 @@
 package main
 
 import (
-	"sync"
-	"time"
-
 	"github.com/cnotch/ipchub/media"
 	"github.com/cnotch/xlog"
 
 	. "vh/lib"
+	"vh/reghist"
 	"vh/sched"
 )
 
-const sdpVideo = "v=0\r\no=- 0 0 IN IP4 127.0.0.1\r\ns=t\r\nc=IN IP4 127.0.0.1\r\nt=0 0\r\n" +
-	"m=video 0 RTP/AVP 96\r\na=rtpmap:96 H264/90000\r\n" +
-	"a=fmtp:96 packetization-mode=1; sprop-parameter-sets=Z2QAH6zZQFAFuhAAAAMAEAAAAwPI8YMZYA==,aO+8sA==; profile-level-id=64001F\r\n" +
-	"a=control:streamid=0\r\n"
-
-// H.264 only: no TS muxer, hence no HLS playlist
-const sdpNoHls = sdpVideo
-
-// H.264 + AAC: the stream gets an HLS playlist
-const sdpH264 = sdpVideo + "m=audio 0 RTP/AVP 97\r\na=rtpmap:97 MPEG4-GENERIC/44100/2\r\n" +
-	"a=fmtp:97 profile-level-id=1;mode=AAC-hbr;sizelength=13;indexlength=3;indexdeltalength=3; config=121056E500\r\n" +
-	"a=control:streamid=1\r\n"
-
-type nopConsumer struct{}
-
-func (nopConsumer) Consume(p media.Pack) {}
-func (nopConsumer) Close() error         { return nil }
-
-var quiet sync.Once
-
-// history of registry operations on the real media package
-func history(c Val) Val {
-	quiet.Do(func() { xlog.ReplaceGlobal(xlog.New(xlog.NewNopCore())) })
-	media.VerifResetRegistry()
-	var streams []*media.Stream
-	idOf := func(s *media.Stream) Val {
-		for i, x := range streams {
-			if x == s {
-				return L(I(int64(i)))
-			}
-		}
-		return L(I(-1))
-	}
-	type att struct{ rtp, flv []media.CID }
-	atts := map[int]*att{}
-	outs := []Val{}
-	for _, op := range c.At(1).List() {
-		a := op.At(1)
-		i := int(a.Int())
-		valid := i >= 0 && i < len(streams)
-		switch op.At(0).Int() {
-		case 0:
-			sdp := sdpNoHls
-			if op.At(2).Bool() {
-				sdp = sdpH264
-			}
-			ns := media.NewStream(a.Str(), sdp)
-			if (ns.Hlsable() != nil) != op.At(2).Bool() {
-				panic("c05: HLS capability of the test stream is not what the case asked for")
-			}
-			streams = append(streams, ns)
-			atts[len(streams)-1] = &att{}
-			outs = append(outs, L(I(0)))
-		case 1:
-			if valid {
-				media.Regist(streams[i])
-			}
-			outs = append(outs, L(I(0)))
-		case 2:
-			if valid {
-				media.Unregist(streams[i])
-			}
-			outs = append(outs, L(I(0)))
-		case 3:
-			if valid {
-				streams[i].Close()
-			}
-			outs = append(outs, L(I(0)))
-		case 4:
-			s := media.Get(a.Str())
-			if s == nil {
-				outs = append(outs, L(I(1), L()))
-			} else {
-				outs = append(outs, L(I(1), idOf(s)))
-			}
-		case 5:
-			sc, cc := media.Count()
-			outs = append(outs, L(I(2), I(int64(sc)), I(int64(cc))))
-		case 6:
-			_, infos := media.Infos("", 1000, false)
-			ps := []Val{}
-			for _, si := range infos {
-				ps = append(ps, S(si.Path))
-			}
-			outs = append(outs, L(I(3), L(ps...)))
-		case 7:
-			if valid {
-				pt := media.RTPPacket
-				if op.At(2).Bool() {
-					pt = media.FLVPacket
-				}
-				cid := streams[i].StartConsume(nopConsumer{}, pt, "c05")
-				if media.VerifStatus(streams[i]) == media.StreamOK {
-					if op.At(2).Bool() {
-						atts[i].flv = append(atts[i].flv, cid)
-					} else {
-						atts[i].rtp = append(atts[i].rtp, cid)
-					}
-				}
-			}
-			outs = append(outs, L(I(0)))
-		case 8:
-			if valid && media.VerifStatus(streams[i]) == media.StreamOK {
-				l := &atts[i].rtp
-				if op.At(2).Bool() {
-					l = &atts[i].flv
-				}
-				if len(*l) > 0 {
-					streams[i].StopConsume((*l)[len(*l)-1])
-					*l = (*l)[:len(*l)-1]
-				}
-			}
-			outs = append(outs, L(I(0)))
-		default:
-			closed := false
-			if valid {
-				d := time.Duration(0) // HLS not accessed within the period
-				if op.At(2).Bool() {
-					d = time.Hour // accessed recently: the playlist was created moments ago
-				}
-				if media.VerifStatus(streams[i]) == media.StreamOK {
-					closed = media.VerifIdleDecision(streams[i], d, media.StreamNoConsumer)
-				}
-			}
-			outs = append(outs, L(I(4), Bo(closed)))
-		}
-	}
-	for _, s := range streams {
-		s.Close()
-	}
-	media.VerifResetRegistry()
-	return L(outs...)
-}
-
 // two goroutines racing to register a stream on one path, replayed through the regist.loaded point
 func race(c Val) Val {
-	quiet.Do(func() { xlog.ReplaceGlobal(xlog.New(xlog.NewNopCore())) })
+	reghist.Quiet.Do(func() { xlog.ReplaceGlobal(xlog.New(xlog.NewNopCore())) })
 	media.VerifResetRegistry()
 	ctl := sched.New()
-	old := media.NewStream("/race", sdpH264)
-	a := media.NewStream("/race", sdpH264)
-	b := media.NewStream("/race", sdpH264)
+	old := media.NewStream("/race", reghist.SdpH264)
+	a := media.NewStream("/race", reghist.SdpH264)
+	b := media.NewStream("/race", reghist.SdpH264)
 	if c.At(0).Bool() {
 		media.Regist(old)
 	}
@@ -184,4 +48,4 @@ func race(c Val) Val {
 	return out
 }
 
-func main() { Main(map[string]func(Val) Val{"C05": history, "C05_race": race}) }
+func main() { Main(map[string]func(Val) Val{"C05": reghist.History, "C05_race": race}) }
